@@ -53,6 +53,12 @@ Theorem C06_single_component : forall c h d n dots, has_slash n = false -> dots 
   lookup1 c h d n <> Err EMULTI /\ create_check c h d n <> Err EMULTI /\ remove_check c h d n dots <> Err EMULTI.
 Proof. exact single_component_fronts. Qed.
 
+(* the creating open always carries O_EXCL: the only form for which the host model (and the kernel) refuses to
+   follow a symlink in the final component *)
+Theorem C06_create_never_follows : forall c h d n flags mode,
+  fst (sys_openat_creat_excl c h d n (N.lor (N.lor flags O_CREAT) O_EXCL) mode) <> Err EFOLLOW.
+Proof. exact create_excl_never_follows. Qed.
+
 (* (c) confinement: for every inside set E (E0 plus everything allocated later), every state
    satisfying the invariant, every request: the invariant is kept, every inode outside E is left
    exactly as it was, and every attribute returned is that of an inode of E *)
@@ -102,6 +108,7 @@ Print Assumptions C06_mutators_reject_unsafe.
 Print Assumptions C06_vfs_first.
 Print Assumptions C06_vfs_rejects_unsafe.
 Print Assumptions C06_single_component.
+Print Assumptions C06_create_never_follows.
 Print Assumptions C06_confined_step.
 Print Assumptions C06_confined.
 Print Assumptions C06_confined_behind_vfs.
